@@ -4,6 +4,8 @@ package shapes
 import (
 	"verif/harness/c03/rx"
 	"verif/harness/c03/shapes/s1"
+	"verif/harness/c03/shapes/s10"
+	"verif/harness/c03/shapes/s11"
 	"verif/harness/c03/shapes/s2"
 	"verif/harness/c03/shapes/s3"
 	"verif/harness/c03/shapes/s4"
@@ -11,6 +13,7 @@ import (
 	"verif/harness/c03/shapes/s6"
 	"verif/harness/c03/shapes/s7"
 	"verif/harness/c03/shapes/s8"
+	"verif/harness/c03/shapes/s9"
 	"verif/harness/c03/shapes/x2"
 )
 
@@ -18,5 +21,13 @@ func All() []*rx.Family {
 	return []*rx.Family{s1.Family(), s2.Family(), s3.Family(), s4.Family(), s5.Family(), s6.Family(), s7.Family(), s8.Family()}
 }
 
-// AllC06 adds the two-realm ownership family to the C03 families.
-func AllC06() []*rx.Family { return append(All(), x2.Family()) }
+// common: the 8 single-realm families + the two-realm ownership family (explored by C03 and C06).
+func common() []*rx.Family { return append(All(), x2.Family()) }
+
+// AllC06 adds the family that exists only for C06: s11 (in-place element shifts of stored slices of pointers / maps /
+// interface values through append and copy).
+func AllC06() []*rx.Family { return append(common(), s11.Family()) }
+
+// AllC03 adds the families that exist only for C03: s9 (one child in several slots of a parent, attached unloaded,
+// released slot by slot; quiet mode) and s10 (copying builtins on reloaded composite elements).
+func AllC03() []*rx.Family { return append(common(), s9.Family(), s10.Family()) }
